@@ -61,6 +61,10 @@ CLAIMS = {
   text="Proof of the replication hand-over for writes in sync mode: what syncPutOnCluster ships to every backup owner is the encoding of the very entry it stores on the primary (key, expiry, write timestamp, value - entry.encodes), also for Expire (the stored value with the new expiry); after a successful local write the primary holds exactly that entry; a DM.PUTENTRY payload is required to be a well-formed encoded entry at every place one is built; a backup owner (putOnReplicaFragment) stores, under the same hashed key, exactly the key, expiry, timestamp and value that the payload encodes. Together with the machine-checked encode/decode round trip (C17) a backup copy written by an acknowledged Put/Expire equals the primary copy.",
   note="The network is assumed to deliver the payload unchanged; Delete's fan-out to backups (errgroup goroutines), eviction, locks, GetPut/Incr (they reduce to Put), async mode and ordering between concurrent writers are not decided; storage.Engine.PutRaw is an assumed abstract contract (kvstore.PutRaw is verified at table level); the handler does not validate a payload received from the network (trusted peers).",
   ref="DESIGN.md §4 C04, §9"),
+ "C08": dict(
+  text="Proof of the per-call obligations of the lock: unlockKey deletes the lock entry only when the presented token equals the stored value, answers no-such-lock and changes nothing otherwise, and reports success only after the delete went through the owner-routing delete; leaseKey extends the expiry only for the stored token of a lock that has not expired (judged at a clock reading during the call), answers no-such-lock and changes nothing for a wrong token or an expired lock; Lock builds a conditional write (NX, never XX) whose value is the 16-byte token it returns and whose expiry is the timeout (PX) exactly when a timeout of at least a millisecond is given. Together with C09 (NX refuses a live key and treats an expired one as absent; PX yields expiry = clock + timeout) and C15 (NX and PX both survive forwarding and decoding) this is the sequential core of the lock.",
+  note="Mutual exclusion over time, waiting until the deadline (tryLock's timer/select loop is trusted), automatic release 'no earlier than the timeout' as seen by other clients, and the member-local serialisation by locker.Locker are not decided (interleavings are not modelled); dm.Get, dm.Expire, tryLock, locker.Lock/Unlock are trusted; effects are observed through ghost counters (routed_deletes, lease_updates); deleteKeys' footprint is assumed, not proved.",
+  ref="DESIGN.md §4 C08, §9"),
 }
 
 NA = {
